@@ -61,6 +61,12 @@ CHECKS = {
  "C17": (E3, "exhaustive enumeration of struct shapes (1..4 fields quick, up to 6 thorough; 6 field types; all #[animate] subsets; 3 visibilities; local/remote) expanded in-process by the real derive source and checked item by item (Layer A) + compiled shape family with run-time checks (Layer B)",
          "For every shape the generated API must mention exactly the animated field set with the right types (setters, keyframe data, sub-timelines, keyframe_from, values_from, update, start_with, Target, visibility); compiled shapes are exercised: setter presence, keyframe_from, untouched fields, per-field interpolation vs a linear reference, metadata.",
          "field names f0..f5, six numeric types; generics/tuple structs unsupported by the derive are outside the statement", "DESIGN.md 3/C17"),
+ "C18": (E4, "exhaustive enumeration of frame-delta schedules (all 4^5 quick / 4^6 thorough schedules over {0, 2^-9, 1/4, 8 s}) x all per-entity control histories (5^5 / 5^6 over nothing/disable/enable/reset/set_timeline) x 12 timings on a real headless bevy App with a hand-driven Time resource, plus a deviation-bounded pass over a longer horizon; per-frame rules R1-R9",
+         "Every schedule/history is run on the real plugin; after each frame position, state, component and events of every entity are checked against the nine rules (time conservation, forward-only state, Waiting only before the delay, Ended exactly when over and never for infinite timelines, terminal values when Ended, timeline value while Playing, disabled = inert, one event per state change).",
+         "frame-start-position reading of the statement; the real timeline is the evaluator (C01-C03 decide it)", "DESIGN.md 3/C18"),
+ "C19": (E4, "exhaustive enumeration of key-assignment histories (5^5 / 5^6) x frame-delta schedules (3^5 / 3^6) x 5 chain maps x 1|2 animated component types on a real headless bevy App, plus a deviation-bounded pass; per-frame rules S1-S6 with a reference selector",
+         "For every entity-frame: the key may change only by assignment or by a justified chain move (the governed animator ended on that very key), a justified move must happen in the next frame, a key change is acted on without a jump and restarts the animation blended from the current values, keys without timeline freeze the component, re-assigning the current key restarts nothing.",
+         "the system order of this build (chain, select, animate); animator internals are C18's", "DESIGN.md 3/C19"),
  "C20": (E1, "exhaustive enumeration of extreme configurations x boundary times x operations under catch_unwind, in a debug and a release build whose result digests must agree",
          "All u32-boundary repeat counts, extreme cycles/delays, times +-0..2 ulp of every phase boundary, huge advances; no panic, finite, within keyframe range, debug==release.",
          "validity bound: total duration <= f32::MAX", "DESIGN.md 3/C20"),
